@@ -10,3 +10,7 @@ Inductive bres := BRet (d : Z) | BPanic.
 
 (* what Policy.Retry returns: (-1, nil) | (-1, err) | (d, nil), or the backoff's panic *)
 Inductive decision := DStop | DFail | DWait (d : Z) | DPanic.
+
+(* what the body-rewind logic does with a request: nothing (go on), install GetBody's result
+   (go on), give up because GetBody is nil / returned an error *)
+Inductive rw_class := RcKeep | RcFresh | RcNoGetBody | RcGetBodyErr.
